@@ -409,6 +409,11 @@ def _strat_job(arg):
             n_eval += 1
             p, dd = h.observe(obj, owned, ids)
             events.append({"ev": "Update", "pids": p, "dids": dd})
+        elif step["op"] == "SetParams":
+            calls.append({"call": "set_params", "params": {"budget": 0.25}})
+            obj.set_params(budget=0.25)
+            p, dd = h.observe(obj, owned, ids)
+            events.append({"ev": "SetParams", "pids": p, "dids": dd, "sym": False})
         else:
             raise tlc.MachineryError("unexpected operation %r in a strategy history" % (step["op"],))
         if raised:   # the parameter frame is checked for a failing call too; then the history ends
@@ -489,6 +494,7 @@ def main(tier="quick", seed=0):
             ok = [ok[int(j)] for j in rng.choice(len(ok), size=cap, replace=False)]
         for i in ok:
             jobs.append((ci, key, i, int(rng.randint(0, 4) + 10 * seed)))
+    jobs = [jobs[int(j)] for j in rng.permutation(len(jobs))]   # spread slow estimators over the workers
     out = pmap(_est_job, jobs)
     traces = []
     for tr, n in out:
